@@ -518,6 +518,36 @@ def history(t):
     return {"problems": problems[:8], "n_problems": len(problems), "queries": nq}
 
 
+# --------------------------------------------------------------------------- mesh export (C20)
+@op
+def meshio_export(t):
+    """grid_to_meshio(model, tt1, tt2, ...) through the stand-in meshio.Mesh"""
+    e = _eik(t)
+    args = []
+    tts = []
+    for src in t.get("sources", []):
+        g = e.solve(src, nsweep=2, return_gradient=bool(t.get("grad", True)))
+        tts.append(g)
+    order = t.get("order", "model_first")
+    args = ([e] + tts) if order == "model_first" else (tts + [e]) if order == "tt_first" else tts
+    if t.get("extra_model"):
+        e2 = _eik(dict(t, grid=np.asarray(t["grid"]) * 2.0))
+        args = args + [e2]
+    m = fteikpy.grid_to_meshio(*args)
+    return {"points": np.array(m.points, dtype=np.float64), "cells": [(c[0], np.array(c[1])) for c in m.cells],
+            "point_data": {k: np.array(v) for k, v in (m.point_data or {}).items()},
+            "cell_data": {k: [np.array(x) for x in v] for k, v in (m.cell_data or {}).items()},
+            "tt": [np.array(g.grid) for g in tts], "grad": [np.array(g._gradient) if g._gradient is not None else None for g in tts],
+            "first_is_tt": order != "model_first" and len(tts) > 0}
+
+
+@op
+def meshio_rays(t):
+    rays = [np.asarray(r, dtype=np.float64) for r in t["rays"]]
+    m = fteikpy.ray_to_meshio(*rays)
+    return {"points": np.array(m.points, dtype=np.float64), "cells": [(c[0], np.array(c[1])) for c in m.cells]}
+
+
 def run_task(t):
     lim = float(t.get("timeout", 20.0))
     err = np.seterr(all="ignore")
